@@ -158,9 +158,14 @@ def run(ctx):
         for suf in ("packed", "version", "exploded"):
             if t_.endswith("." + suf):
                 return suf, t_[: -len(suf) - 1]
+        for suf in ("compressed",):
+            if t_.endswith("." + suf):
+                return "str", t_[: -len(suf) - 1]
         op_, a_ = destruct(t_)
         if op_ == "int" and len(a_) == 1:
             return "int", a_[0]
+        if op_ in ("str", "repr", "format") and len(a_) == 1:
+            return "str", a_[0]  # the textual form: recognised, and not a comparison by address value (zone ids, spellings)
         return None, t_
 
     for r in irows:
